@@ -239,7 +239,7 @@ def build_props(prop):
         t0 = time.time()
         rc, out = make([f'Props/{prop}.vo'])
         names, lines = prop_theorems(prop)
-        res = dict(ok=(rc == 0), obligations=len(names), discharged=len(names) if rc == 0 else 0,
+        res = dict(ok=(rc == 0), theorem_names=names, obligations=len(names), discharged=len(names) if rc == 0 else 0,
                    failed=None, log=out[-6000:], assumptions={}, translate_errors={k: v for k, v in terr.items() if v},
                    checker_cmd=f'cd /verif/coq && make -f Makefile.coq Props/{prop}.vo  (coqc 8.16.1, full .vo build)',
                    build_s=round(time.time() - t0, 1))
@@ -518,7 +518,8 @@ def write_evidence(ctx, build, spec):
         'samples': jsonable(ctx.samples) or ['(no correspondence cases ran)'],
         'traces_validated_against_impl': ctx.evaluations,
         'distribution': ctx.stats,
-        'theorems': spec.get('theorems', {}),
+        'theorems': {**{n: ('partial (see level_note)' if 'partial' in n else 'full') for n in build.get('theorem_names', [])},
+                     **spec.get('theorems', {})},
         'proof_build_ok': build['ok'],
         'failed_obligation': build.get('failed'),
         'translator_errors': build.get('translate_errors', {}),
